@@ -62,7 +62,7 @@ def cases(tier, seed):
            dict(channels=0, boolean=True), dict(channels=0, shape=[1, 7]), dict(channels=0, shape=[6, 1]), dict(channels=3, labels=["blue", "green", "red"]),
            # labels that merely START like a colour name are labels, not colours: none is lost, none collides
            dict(channels=3, labels=["blue", "green", "bright"]), dict(channels=2, labels=["red", "ruby"]), dict(channels=3, labels=["rot", "gruen", "blau"]),
-           dict(channels=2, labels=["background", "reference"]), dict(channels=0, zstack=3)]
+           dict(channels=2, labels=["background", "reference"]), dict(channels=0, zstack=3), dict(channels=0, zstack=2)]
     for j, extra in enumerate(cat):
         c = {"id": "tiff-cat-%d" % j, "kind": "tiff", "shape": [5 + j % 3, 4 + j % 4], "depth": 8, "via": ["hp.save", "save_image"][j % 2], "scaling": "auto",
              "seed": [seed, "tiffcat", j]}
@@ -241,15 +241,29 @@ def _run_tiff(case, td):
         # several z planes do not fit into one TIFF image: refused clearly, or all of them come back -- never the first plane alone
         import xarray as xr
         from holopy.core.errors import BadImage
-        vol = xr.concat([im.assign_coords(z=[float(k_)]) * (1.0 + 0.1 * k_) for k_ in range(case["zstack"])], dim="z")
+        vol = xr.concat([im.assign_coords(z=[float(k_)]) * (1.0 + 0.7 * k_) + 0.4 * k_ for k_ in range(case["zstack"])], dim="z")
         vol.attrs = dict(im.attrs); vol.name = im.name
+        # the plural entry point writes one file per plane: each comes back as that plane (values to the quantization of ITS range,
+        # spacing and metadata kept)
+        from holopy.core.io.io import save_images
+        files = [os.path.join(td, "plane%d.tif" % k_) for k_ in range(case["zstack"])]
+        save_images(files, vol)
+        worst_q, planes_ok = 0.0, True
+        for k_, fn in enumerate(files):
+            back_k = hp.load(fn)
+            want_k = vol.isel(z=k_)
+            q_k = float(want_k.max() - want_k.min()) / 255.0
+            got_k = np.asarray(back_k.values, dtype=float).squeeze()
+            planes_ok &= bool(got_k.shape == want_k.shape and np.allclose(back_k.x.values, want_k.x.values, rtol=1e-12, atol=1e-12) and back_k.attrs.get("medium_index") == im.attrs.get("medium_index"))
+            if got_k.shape == want_k.shape:
+                worst_q = max(worst_q, float(np.abs(got_k - want_k.values).max()) / q_k)
         p = os.path.join(td, "vol.tif")
         try:
             (hp.save if case["via"] == "hp.save" else save_image)(p, vol)
         except BadImage:
-            return {"resid": {}, "flags": {"z_stack_refused_or_kept": True}, "bad_fields": [], "const": False}
+            return {"resid": {"tiff_quanta": fnum(worst_q)}, "flags": {"z_stack_refused_or_kept": True, "save_images_planes": planes_ok}, "bad_fields": [], "const": False}
         back = hp.load(p)
-        return {"resid": {}, "flags": {"z_stack_refused_or_kept": bool(back.sizes.get("z", 1) == case["zstack"])}, "bad_fields": [], "const": False}
+        return {"resid": {"tiff_quanta": fnum(worst_q)}, "flags": {"z_stack_refused_or_kept": bool(back.sizes.get("z", 1) == case["zstack"]), "save_images_planes": planes_ok}, "bad_fields": [], "const": False}
     # value ranges: ordinary, very faint, low contrast on a large pedestal, large, straddling zero
     off, scl = [(0.0, 1.0), (0.0, 3e-9), (1.0, 1e-6), (4.0e4, 2.5e4), (-5.0, 10.0), (0.0, 1.0)][int(case["id"].split("-")[-1]) % 6]
     if scl != 1.0 or off != 0.0:
